@@ -181,21 +181,9 @@ impl<'a> Iterator for Iter8<'a> {
 //@include spec/lit_specs.rs
 //@type src/lex.rs const BIT_CLR_CHAR
 //@type src/lex.rs const BIT_SET_CHAR
-// stand-in for core::fmt::Formatter: a character sink.  ASSUMED: write_str / write_char append exactly their argument,
-// `write!(f, "{:X}", v)` for v < 16 appends ONE character whose value as a hex digit is v
-#[verifier::external_body] pub struct Formatter { _p: u8 }
-pub struct FmtError {}
-pub type FmtResult = Result<(), FmtError>;
+//@include preamble/fmt_sink.rs
+// `write!(f, "{:X}", v)` for v < 16 appends ONE character whose value as a hex digit is v (ASSUMED std UpperHex)
 pub uninterp spec fn upper_hex(v: u8) -> char;
-impl Formatter {
-    pub uninterp spec fn out(&self) -> Seq<char>;
-    #[verifier::external_body] pub fn write_str(&mut self, s: &str) -> (r: FmtResult)
-        ensures r is Ok ==> final(self).out() == old(self).out() + s@
-    { unimplemented!() }
-    #[verifier::external_body] pub fn write_char(&mut self, c: char) -> (r: FmtResult)
-        ensures r is Ok ==> final(self).out() == old(self).out().push(c)
-    { unimplemented!() }
-}
 #[verifier::external_body] pub fn verif_upper_hex(f: &mut Formatter, v: u8) -> (r: FmtResult)
     ensures r is Ok && v < 16 ==> final(f).out() == old(f).out().push(upper_hex(v)) && hexval(upper_hex(v)) == Some(v as u32)
 { unimplemented!() }
